@@ -31,17 +31,25 @@ use rand_chacha::ChaCha12Rng as Rng;
 /// [rand issue]: https://github.com/rust-random/rand/issues/932
 #[cfg_attr(docsrs, doc(cfg(feature = "std_rng")))]
 #[derive(Clone, Debug, PartialEq, Eq)]
-pub struct StdRng(Rng);
+pub struct StdRng(Rng, Option<crate::sim::StdFault>);
 
 impl RngCore for StdRng {
     #[inline(always)]
     fn next_u32(&mut self) -> u32 {
-        self.0.next_u32()
+        let v = self.0.next_u32();
+        if let Some(f) = self.1.as_mut() {
+            return f.map32(v);
+        }
+        v
     }
 
     #[inline(always)]
     fn next_u64(&mut self) -> u64 {
-        self.0.next_u64()
+        let v = self.0.next_u64();
+        if let Some(f) = self.1.as_mut() {
+            return f.map64(v);
+        }
+        v
     }
 
     #[inline(always)]
@@ -60,12 +68,15 @@ impl SeedableRng for StdRng {
 
     #[inline(always)]
     fn from_seed(seed: Self::Seed) -> Self {
-        StdRng(Rng::from_seed(seed))
+        // /verif seam: a fault plan installed on this thread is captured here (None otherwise)
+        let fault = crate::sim::std_fault_for(&seed);
+        StdRng(Rng::from_seed(seed), fault)
     }
 
     #[inline(always)]
     fn from_rng<R: RngCore>(rng: R) -> Result<Self, Error> {
-        Rng::from_rng(rng).map(StdRng)
+        // /verif seam: seeded from another generator, no seed of its own to key a plan on: never faulted
+        Rng::from_rng(rng).map(|r| StdRng(r, None))
     }
 }
 
